@@ -452,6 +452,55 @@ func c07Unit(name string, tier string) core.Unit {
 				}
 			}
 		}
+		// the whole clean universe as one list, from six deterministic input orders: any
+		// inconsistency of Compare on it shows as an adjacency violation or as differing class
+		// sequences between the orders
+		{
+			u := univ.Versions(c.e, 0)
+			var whole []string
+			for _, s := range u.Strs {
+				if s == strings.TrimSpace(s) && !dirty(s) && !strings.ContainsAny(s, " \t\n\r") && len(s) < 40 {
+					whole = append(whole, s)
+				}
+			}
+			whole = func() []string {
+				idx := make([]int, len(whole))
+				for i := range idx {
+					idx[i] = i
+				}
+				var out []string
+				for _, i := range stride(idx, 1500) {
+					out = append(out, whole[i])
+				}
+				return out
+			}()
+			n := len(whole)
+			if n >= 50 {
+				orders := [][]string{append([]string{}, whole...)}
+				rev := append([]string{}, whole...)
+				slices.Reverse(rev)
+				orders = append(orders, rev)
+				for _, k := range []int{n / 3, n / 2} {
+					orders = append(orders, append(append([]string{}, whole[k:]...), whole[:k]...))
+				}
+				inter := make([]string, 0, n)
+				for i := 0; i < n; i += 2 {
+					inter = append(inter, whole[i])
+				}
+				for i := 1; i < n; i += 2 {
+					inter = append(inter, whole[i])
+				}
+				orders = append(orders, inter)
+				bylen := append([]string{}, whole...)
+				sort.SliceStable(bylen, func(i, j int) bool { return len(bylen[i]) > len(bylen[j]) })
+				orders = append(orders, bylen)
+				for _, o := range orders {
+					r.Add("states", 1)
+					c.sortList(o)
+				}
+				r.AddScope(name, "whole_universe_list_length", int64(n))
+			}
+		}
 		// invalid inputs: every position of every list of length <= 3 over W1 replaced
 		bad := []string{"", "not a version !", "%%%"}
 		w := ws[0][:3]
@@ -575,7 +624,7 @@ func init() {
 				"distinct_nontrivial":           r.Counters["nontrivial"],
 			}
 		},
-		Rule:        "per ecosystem 5 (quick) / 8 (thorough) universes W of up to 6 versions derived from C01's universe (six classes spread over the order; Compare-equal textual variants plus singles; six neighbouring classes; one member per distinct spelling shape - prefixes, punctuation, upper case, long digit runs; six members of the most populated numeric core, i.e. pre/post/dev spellings of one release; thorough: lowest six, highest six, one with an exact duplicate): EVERY list of length 1..5 (quick) / 1..6 (thorough) over W - i.e. every permutation of every multiset - is sorted through the real CLI `sort` (overlay-built server around run()) and through the README idiom slices.SortFunc; plus deterministic families of length 13, 33, 64 (sorted, reversed, all rotations, organ-pipe, all-equal, two-value blocks); plus every list of length <= 3 with each position replaced by an invalid string. distinct_nontrivial = distinct multisets whose sorted output has more than one class.",
+		Rule:        "per ecosystem 5 (quick) / 8 (thorough) universes W of up to 6 versions derived from C01's universe (six classes spread over the order; Compare-equal textual variants plus singles; six neighbouring classes; one member per distinct spelling shape - prefixes, punctuation, upper case, long digit runs; six members of the most populated numeric core, i.e. pre/post/dev spellings of one release; thorough: lowest six, highest six, one with an exact duplicate): EVERY list of length 1..5 (quick) / 1..6 (thorough) over W - i.e. every permutation of every multiset - is sorted through the real CLI `sort` (overlay-built server around run()) and through the README idiom slices.SortFunc; plus deterministic families of length 13, 33, 64 (sorted, reversed, all rotations, organ-pipe, all-equal, two-value blocks); plus the whole clean universe (up to 1 500 versions) as one list from six deterministic input orders; plus every list of length <= 3 with each position replaced by an invalid string. distinct_nontrivial = distinct multisets whose sorted output has more than one class.",
 		Assumptions: []string{"versions in known-intransitive classes (C01 known findings) and alpm versions with '-' are not used as sort inputs", "'all permutations' beyond length 6 is replaced by the deterministic families"},
 	})
 }
